@@ -104,21 +104,24 @@ Section Law.
     match o with
     | SetItem k v =>
         match kv k, vv v with
-        | Some vk, Some vvv => (Ok, mset vk vvv m, RNone)
+        | Some vk, Some vvv => if hashable vk then (Ok, mset vk vvv m, RNone) else (Raise TypeError, m, RNone)
         | _, _ => (Raise TraitError, m, RNone)
         end
-    | DelItem k => if has k m then (Ok, mremove k m, RNone) else (Raise KeyError, m, RNone)
+    | DelItem k => if negb (hashable k) then (Raise TypeError, m, RNone)
+                   else if has k m then (Ok, mremove k m, RNone) else (Raise KeyError, m, RNone)
     | Update a ps | Ior a ps =>
         match validate_pairs (items_of a ps) with
         | Some vps => (Ok, update_all vps m, RNone)
         | None => (Raise TraitError, m, RNone)
         end
     | SetDefault k v =>
+        if negb (hashable k) then (Raise TypeError, m, RNone) else
         match lookup k m with
         | Some x => (Ok, m, RVal x)
         | None =>
             match kv k, vv v with
             | Some vk, Some vvv =>
+                if negb (hashable vk) then (Raise TypeError, m, RNone) else
                 match lookup vk m with
                 | Some x => (Ok, m, RVal x)                 (* dict.setdefault: present key wins *)
                 | None => (Ok, mset vk vvv m, RVal vvv)
@@ -193,7 +196,7 @@ Section Law.
     | SetDefault k v =>
         match lookup k m with
         | Some _ => false
-        | None => match kv k, vv v with Some vk, Some _ => has vk m | _, _ => false end
+        | None => match kv k, vv v with Some vk, Some _ => hashable k && hashable vk && has vk m | _, _ => false end
         end
     | _ => false
     end.
